@@ -330,7 +330,7 @@ func TestC08Race(t *testing.T) {
 			nst := fz.g.Int(3, 10)
 			for i := 0; i < nst; i++ {
 				st := fz.stmt()
-				if fz.g.Chance(1, 6) {
+				if fz.g.Chance(1, 25) {
 					st = "rec(0)"
 				}
 				sb.WriteString("try:\n" + Indent(st, 4))
